@@ -688,13 +688,14 @@ fn history(which: u64, sc: &Scene, ctx: &mut Ctx) {
 // ---------------------------------------------------------------------------------------------
 // part D: nesting and parameters mapped from the listener distance
 
-const PLACEMENTS: [&str; 6] = [
+const PLACEMENTS: [&str; 7] = [
 	"on the spatial track",
 	"on a plain child of the spatial track",
 	"on a plain grandchild of the spatial track",
 	"on a plain child of a spatial track nested in another spatial track",
 	"on a plain child of a plain track under a spatial track under a plain track",
 	"as the volume of a plain child of the spatial track",
+	"as the volume of a plain child of the spatial track, linked at run time through TrackHandle::set_volume (2-frame tween)",
 ];
 const MAP_EASINGS: [Easing; 2] = [Easing::Linear, Easing::InPowi(2)];
 fn vol_mapping(e: Easing) -> Mapping<Decibels> { Mapping { input_range: (0.0, 20.0), output_range: (Decibels(0.0), Decibels(-40.0)), easing: e } }
@@ -718,9 +719,13 @@ fn build_placement(p: usize, e: Easing, lpos: V3, epos: V3) -> (Manager, Listene
 			sp.play(input()).expect("play");
 			sp
 		}
-		1 | 2 | 5 => {
+		1 | 2 | 5 | 6 => {
 			let mut sp = m.add_spatial_sub_track(&l, mv(epos), sp_builder(FLAT)).expect("track");
-			let mut c = if p == 5 { sp.add_sub_track(plain_builder().volume(vol).with_effect(DistProbeBuilder(seen.clone()))).expect("child") } else if p == 1 { sp.add_sub_track(fx_plain()).expect("child") } else { sp.add_sub_track(plain_builder()).expect("child") };
+			let mut c = if p == 6 {
+				let mut c = sp.add_sub_track(plain_builder().with_effect(DistProbeBuilder(seen.clone()))).expect("child");
+				c.set_volume(vol, tween_frames(2));
+				c
+			} else if p == 5 { sp.add_sub_track(plain_builder().volume(vol).with_effect(DistProbeBuilder(seen.clone()))).expect("child") } else if p == 1 { sp.add_sub_track(fx_plain()).expect("child") } else { sp.add_sub_track(plain_builder()).expect("child") };
 			if p == 2 {
 				let mut g = c.add_sub_track(fx_plain()).expect("grandchild");
 				g.play(input()).expect("play");
@@ -812,7 +817,7 @@ fn param_case(p: usize, ctx: &mut Ctx) {
 						if (seen.param - (d / 10.0).clamp(0.0, 1.0)).abs() > 1e-5 {
 							ctx.fail(format!("an effect parameter mapped from the listener distance does not follow the distance :: {}", class), detail);
 						} else if (o.0 as f64 - IN.0 as f64 * want).abs() > tol || (o.1 as f64 - IN.1 as f64 * want).abs() > tol {
-							ctx.fail(format!("a volume mapped from the listener distance does not follow the distance :: {}", if p == 5 { "track volume" } else { "volume-control effect" }), detail);
+							ctx.fail(format!("a volume mapped from the listener distance does not follow the distance :: {}", if p == 6 { "track volume linked through the handle" } else if p == 5 { "track volume" } else { "volume-control effect" }), detail);
 						} else {
 							ctx.nontrivial_extra += 1;
 						}
@@ -1061,6 +1066,26 @@ fn tween_one(which: usize, t: &TweenScene, ms: &[Motion], ctx: &mut Ctx) {
 		if f.0 as f64 > top.0 + 1e-6 || f.1 as f64 > top.1 + 1e-6 || f.0 < 0.0 || f.1 < 0.0 || too_low {
 			ctx.fail(format!("level outside attenuation x ear-gain bounds during a tween :: tween of {}", TWEENS[which]), format!("{} -> frame {} = {:?} of {:?}", what, i, f, out));
 			break;
+		}
+	}
+	// attenuation depends on the distance only and is non-increasing in it - also frame by frame while one end moves
+	// along a straight line on which the distance is monotone (no panning: strength 0)
+	if (which == 0 || which == 1) && t.sc.sp.s == 0.0 && t.s == 0.0 && t.sc.sp.curve.is_some() && t.frames as usize > IBS {
+		let (a, b, fixed) = if which == 0 { (t.sc.epos, t.epos, t.sc.lpos) } else { (t.sc.lpos, t.lpos, t.sc.epos) };
+		let ds: Vec<f64> = (0..=64).map(|k| len(sub(add(a, scale(sub(b, a), k as f64 / 64.0)), fixed))).collect();
+		let grows = ds.windows(2).all(|w| w[1] >= w[0]) && ds[64] > ds[0];
+		let shrinks = ds.windows(2).all(|w| w[1] <= w[0]) && ds[64] < ds[0];
+		if grows || shrinks {
+			for i in IBS..out.len() - 1 {
+				let (x, y) = (out[i].0 as f64, out[i + 1].0 as f64);
+				if (grows && y > x + 1e-6) || (shrinks && y < x - 1e-6) {
+					ctx.fail(
+						format!("the level does not follow the distance monotonically, frame by frame, while one end moves steadily {} :: tween of {}", if grows { "away" } else { "closer" }, TWEENS[which]),
+						format!("{} -> frame {} = {} then frame {} = {}; left-channel frames {:?}", what, i, x, i + 1, y, out.iter().map(|f| f.0).collect::<Vec<_>>()),
+					);
+					break;
+				}
+			}
 		}
 	}
 	// after the tween the scene renders like the static target scene
